@@ -225,7 +225,7 @@ type fileInstr struct {
 	funcs     []string // enclosing function names
 }
 
-func (fi *fileInstr) off(p token.Pos) int { return fi.fset.Position(p).Offset }
+func (fi *fileInstr) off(p token.Pos) int  { return fi.fset.Position(p).Offset }
 func (fi *fileInstr) line(p token.Pos) int { return fi.fset.Position(p).Line }
 
 func (fi *fileInstr) insert(off int, text string) {
@@ -465,7 +465,15 @@ func (fi *fileInstr) run() {
 				}
 			}
 		case *ast.GoStmt:
-			die("%s:%d: go statement in library code: the cooperative scheduler does not own this goroutine", fi.rel, fi.line(v.Pos()))
+			// The library has no go statements today.  If a change adds one, the simulator
+			// cannot own that goroutine's interleaving: it is marked as foreign at the spawn
+			// site (the statement itself is left untouched) and verifsim ignores yield points
+			// and map-iteration events that do not come from a goroutine it owns.
+			if !fi.inStmtList(parent, v) {
+				die("%s:%d: go statement outside a statement list", fi.rel, fi.line(v.Pos()))
+			}
+			id := fi.newSite("go-stmt", v.Pos(), "")
+			fi.insert(fi.off(v.Pos()), fmt.Sprintf("verifsim.ForeignSpawn(%d); ", id))
 		}
 		return true
 	})
